@@ -32,6 +32,7 @@ type sRes struct {
 	Stats   *rt.ExploreStats
 	Confirm []string
 	Names   []string
+	Windows []string
 }
 
 func (sc *SScenario) opts(bound int, cache bool) rt.ExploreOpts {
@@ -65,6 +66,7 @@ func WorkSchedules(scs []*SScenario, job json.RawMessage) json.RawMessage {
 				res.Names = append(res.Names, cp.Names[cp.Chosen])
 			}
 		}
+		res.Windows = out.Res.Windows
 	} else {
 		o := sc.opts(j.Bound, j.Cache)
 		o.Roots = j.Roots
@@ -102,6 +104,7 @@ func RunSchedules(c *Ctx, scs []*SScenario, plan SPlan, rep *Report) {
 		completed := "none"
 		completedInt := -2
 		distinct := map[string]int{}
+		seenClause := map[string]bool{}
 		for _, b := range plan.Bounds {
 			if time.Now().After(c.Deadline()) {
 				budgetHit = true
@@ -135,19 +138,21 @@ func RunSchedules(c *Ctx, scs []*SScenario, plan SPlan, rep *Report) {
 				rep.EngineErr = append(rep.EngineErr, sc.Name+": replay divergence: "+d)
 			}
 			// confirm and record violations (fewest deviations first)
-			seenKey := map[string]bool{}
 			for _, v := range st.Violations {
-				key := sc.Name + ": " + clause(v.Msg)
-				if seenKey[key] {
+				ck := sc.Name + ": " + clause(v.Msg)
+				if seenClause[ck] {
 					continue
 				}
-				seenKey[key] = true
-				ok, names := confirm(c, pool, sc, v)
+				seenClause[ck] = true
+				ok, names, windows := confirm(c, pool, sc, v)
 				if !ok {
 					rep.EngineErr = append(rep.EngineErr, fmt.Sprintf("%s: violation %q did not reproduce on re-execution of %v", sc.Name, v.Msg, v.Choices))
 					continue
 				}
-				rep.Add(key, v.Msg, map[string]any{"scenario": sc.Name, "choices": v.Choices, "deviations": v.Deviations, "schedule": names, "timers_free": sc.TimersFree, "max_ticks": sc.MaxTicks})
+				// the finding is identified by scenario, violated clause and the code windows
+				// of the deviations of its (minimal) schedule
+				key := ck + " @ " + strings.Join(windows, " ; ")
+				rep.Add(key, v.Msg, map[string]any{"windows": windows, "scenario": sc.Name, "choices": v.Choices, "deviations": v.Deviations, "schedule": names, "timers_free": sc.TimersFree, "max_ticks": sc.MaxTicks})
 			}
 			for k, n := range st.Outcomes {
 				distinct[k] += n
@@ -254,10 +259,10 @@ func tail(s string, n int) string {
 
 // confirm re-executes a violating schedule twice in fresh workers; both runs
 // must report the same clause.
-func confirm(c *Ctx, pool *Pool, sc *SScenario, v rt.Violation) (bool, []string) {
+func confirm(c *Ctx, pool *Pool, sc *SScenario, v rt.Violation) (bool, []string, []string) {
 	jb, _ := json.Marshal(sJob{Scenario: sc.Name, Confirm: v.Choices})
 	okCount := 0
-	var names []string
+	var names, windows []string
 	p2 := *pool
 	p2.N = 1
 	for i := 0; i < 2; i++ {
@@ -268,10 +273,11 @@ func confirm(c *Ctx, pool *Pool, sc *SScenario, v rt.Violation) (bool, []string)
 				if clause(m) == clause(v.Msg) {
 					okCount++
 					names = r.Names
+					windows = r.Windows
 					break
 				}
 			}
 		})
 	}
-	return okCount == 2, names
+	return okCount == 2, names, windows
 }
